@@ -1,6 +1,6 @@
 """C10 -- receive windows follow the regional parameters in force when the uplink was sent."""
 import re
-from .. import core, machist, macstage, lw
+from .. import chanops, core, machist, macstage, lw
 
 ID = "C10"
 THEOREMS = ["C10_rx1_rule", "C10_window_dr_total", "C10_no_panic_in_window_config", "C10_windows_from_the_uplink",
@@ -15,6 +15,8 @@ DRS = {
 FAM = {0: "eu", 1: "eu", 2: "eu", 3: "eu", 4: "au", 5: "eu", 6: "eu", 7: "eu", 8: "us"}
 RX2DR = {0: 2, 1: 2, 2: 2, 3: 2, 4: 8, 5: 0, 6: 0, 7: 2, 8: 8}
 US_DOWN = [923300000 + 600000 * i for i in range(8)]
+BANDS = {0: (915000000, 928000000), 1: (915000000, 928000000), 2: (915000000, 928000000), 3: (917000000, 920000000),
+         4: (915000000, 928000000), 5: (863000000, 870000000), 6: (433050000, 434790000), 7: (865000000, 867000000), 8: (902000000, 928000000)}
 
 
 def rp_rx1(region, dr, off):
@@ -62,6 +64,7 @@ def gen(rng, tier):
             lines.append(net.line())
         for k in range(30 if tier == "quick" else 500):
             lines.append(machist.random_history(r.fork("h%d" % k), region, 15, classc=True))
+    lines += chanops.gen(rng, tier, lambda q: machist.draws(q, 40) + "," + ",".join(str(v) for v in range(32)))
     return lines
 
 
@@ -73,10 +76,47 @@ def oracle(case, impl, model=None):
     inv = {v: k for k, v in fam.items()}
     off = rx2dr = rx2f = None
     delay = 1000
+    exp_dl = {}          # channel index -> downlink frequency negotiated by an effective DlChannelReq (dynamic plans)
+    track = region not in machist.FIXED
+    plan = None
     for i, op in enumerate(parts[1:]):
         if i >= len(outs) or outs[i] in ("PANIC", "HANG"):
             return None
         a, o = op.split(), outs[i]
+        if a[0] in ("abp", "otaa"):
+            exp_dl = {}
+        if a[0] == "snap":
+            mm = re.search(r"dyn ch=(\S+) mask=\[([^\]]*)\]", o)
+            if mm:
+                plan = ([None if c == "-" else int(c.split("/")[0]) for c in mm.group(1).split(",")], [int(x, 16) for x in mm.group(2).split(", ")])
+        if track and a[0] == "rx" and o.startswith("DownlinkReceived"):
+            f = bytes.fromhex(a[1])
+            fl = f[5] & 15
+            body = f[8 + fl:-4]
+            if body and body[0] == 0:
+                track = False                       # encrypted port-0 commands: stop tracking for this history
+            k, fo = 0, f[8:8 + fl]
+            while track and k < len(fo):
+                cid = fo[k]
+                ln = {2: 2, 3: 4, 4: 1, 5: 4, 6: 0, 7: 5, 8: 1, 9: 1, 10: 4, 13: 5}.get(cid)
+                if ln is None or k + 1 + ln > len(fo):
+                    break
+                p = fo[k + 1:k + 1 + ln]
+                k += 1 + ln
+                if cid == 3:
+                    plan = None                     # mask may change: wait for the next snapshot
+                if cid == 7:
+                    exp_dl.pop(p[0], None)
+                    plan = None
+                if cid == 10:
+                    idx, fq = p[0], int.from_bytes(p[1:4], "little") * 100
+                    if plan is None:
+                        track = False
+                    elif idx < 16 and plan[0][idx] is not None and (plan[1][idx // 8] >> (idx % 8)) & 1 and BANDS[region][0] <= fq <= BANDS[region][1]:
+                        if fq == plan[0][idx]:
+                            exp_dl.pop(idx, None)
+                        else:
+                            exp_dl[idx] = fq
         if a[0] == "snap":
             m = re.search(r"rx1_delay=(\d+) pw=-?\d+ rx1off=(\d+) rx2dr=(-?\d+) rx2f=(-?\d+)", o)
             if m:
@@ -94,6 +134,16 @@ def oracle(case, impl, model=None):
             if want is not None and want in fam and rx1dr != want and (g[6], g[7]) != fam.get(want):
                 return {"kind": "RX1 data rate differs from the regional RX1 table for (uplink data rate, RX1 offset)",
                         "uplink_dr": txdr, "offset": off, "rx1": (g[6], g[7]), "expected_dr": want}
+            if track and a[0] == "send" and i + 1 < len(outs) and parts[2 + i].startswith("snap"):
+                mm = re.search(r"dyn ch=(\S+) mask=", outs[i + 1])
+                if mm:
+                    uls = [None if c == "-" else int(c.split("/")[0]) for c in mm.group(1).split(",")]
+                    cands = [k for k, u in enumerate(uls) if u == g[1]]
+                    if len(cands) == 1:
+                        want1 = exp_dl.get(cands[0], g[1])
+                        if g[5] != want1:
+                            return {"kind": "RX1 is not on the downlink frequency paired with the uplink channel (DlChannelReq in force, else the uplink frequency)",
+                                    "channel": cands[0], "uplink_freq": g[1], "rx1_freq": g[5], "expected": want1}
             if region in (4, 8):
                 # RX1 frequency = downlink channel (uplink channel index mod 8)
                 if g[5] not in US_DOWN:
